@@ -233,6 +233,29 @@ fn gen_import(rng: &mut Rng) -> String {
     }
 }
 
+/// Random type text: names, generic applications, tuple types of every size (the one-element `(T,)` too), function
+/// types, unit.
+pub fn gen_type(rng: &mut Rng, depth: u32) -> String {
+    if depth == 0 || rng.chance(1, 4) {
+        return rng.pick(&["int", "str", "float", "bool", "bytes", "P", "None"]).to_string();
+    }
+    let t = |rng: &mut Rng| gen_type(rng, depth - 1);
+    match rng.below(12) {
+        0 => format!("List[{}]", t(rng)),
+        1 => format!("Dict[{}, {}]", t(rng), t(rng)),
+        2 => format!("Set[{}]", t(rng)),
+        3 => format!("Option[{}]", t(rng)),
+        4 => format!("Result[{}, {}]", t(rng), t(rng)),
+        5 => format!("({},)", t(rng)),
+        6 => format!("({}, {})", t(rng), t(rng)),
+        7 => format!("({}, {}, {})", t(rng), t(rng), t(rng)),
+        8 => format!("Tuple[{}, {}]", t(rng), t(rng)),
+        9 => format!("({}) -> {}", t(rng), t(rng)),
+        10 => format!("({}, {}) -> {}", t(rng), t(rng), t(rng)),
+        _ => format!("() -> {}", t(rng)),
+    }
+}
+
 fn gen_stmt(rng: &mut Rng) -> String {
     let e = |rng: &mut Rng| {
         let d = 1 + rng.below(3) as u32;
@@ -269,6 +292,25 @@ pub fn run(out: &mut Out, tier: &str, seed: u64) {
             out.case(&format!("fmt stmt {i} {dump}"), &v);
         }
     }
+    // types in every position that carries one: parameter, return, annotated binding, field, newtype, trait method
+    let n_types = if tier == "thorough" { 4_000 } else { 400 };
+    let mut type_parsed = 0;
+    for i in 0..n_types {
+        let d = 1 + rng.below(3) as u32;
+        let (t1, t2) = (gen_type(&mut rng, d), gen_type(&mut rng, d));
+        let src = match i % 4 {
+            0 => format!("def g(p: {t1}) -> {t2}:\n    pass\n"),
+            1 => format!("model M:\n    f: {t1}\n    g: {t2}\n"),
+            2 => format!("type N = newtype {t1}\n\ndef h(q: N) -> None:\n    v: {t2} = w\n"),
+            _ => format!("trait T:\n    def m(self, a: {t1}) -> {t2}: ...\n"),
+        };
+        if let Some(v) = verdict(&src) {
+            type_parsed += 1;
+            let dump = if v != "ok" { enc_str(&src) } else { "-".to_string() };
+            out.case(&format!("fmt type {i} {dump}"), &v);
+        }
+    }
+    out.meta(&serde_json::json!({"type_sources": n_types, "type_sources_parsed": type_parsed}));
     let mut sources = corpus::files();
     if let Ok(rd) = std::fs::read_dir("/verif/corpus/fmt") {
         let mut ps: Vec<_> = rd.flatten().map(|e| e.path()).collect();
